@@ -211,8 +211,9 @@ def _c26_e2e(ctx, cases, n):
     rnd = random.Random(ctx.seed)
     # strata: the break out of the loop matters / retries happen / the rest
     early = [c for c in cases if c["stopped"] and c["allow"] > len(c["runs"])]
-    retry = [c for c in cases if len(c["runs"]) >= 2 and c not in early]
-    rest = [c for c in cases if len(c["runs"]) < 2 and c not in early]
+    early_ids = {c["id"] for c in early}
+    retry = [c for c in cases if len(c["runs"]) >= 2 and c["id"] not in early_ids]
+    rest = [c for c in cases if len(c["runs"]) < 2 and c["id"] not in early_ids]
     for l in (early, retry, rest):
         rnd.shuffle(l)
     sample = early[:n // 4]
